@@ -3,6 +3,9 @@
 #include "rulesetgen.hpp"
 #include "samples.hpp"
 #include <atomic>
+#include <fcntl.h>
+#include <sys/mman.h>
+#include <sys/stat.h>
 #include <mutex>
 #include <thread>
 
@@ -50,7 +53,38 @@ struct ScanSpec
   bool sigbus = false;  // block scan whose last block lies in a truncated file mapping
   int park_us = 0;
   int timeout = 0;      // seconds; chosen far above what the scan needs
+  bool unmappable = false;  // scan by path of a file that can be opened but not mapped (sysfs): an error result
 };
+
+// a file that open() accepts and mmap() refuses, if this system has one
+static const char* unmappable_path()
+{
+  static std::string found;
+  static bool looked = false;
+  if (!looked)
+  {
+    looked = true;
+    for (const char* p : {"/sys/kernel/notes", "/sys/kernel/uevent_seqnum", "/sys/devices/system/cpu/online"})
+    {
+      int fd = open(p, O_RDONLY);
+      if (fd < 0)
+        continue;
+      struct stat st;
+      if (fstat(fd, &st) == 0 && st.st_size > 0)
+      {
+        void* m = mmap(nullptr, st.st_size, PROT_READ, MAP_PRIVATE, fd, 0);
+        if (m == MAP_FAILED)
+          found = p;
+        else
+          munmap(m, st.st_size);
+      }
+      close(fd);
+      if (!found.empty())
+        break;
+    }
+  }
+  return found.empty() ? nullptr : found.c_str();
+}
 
 static const char* XS[] = {"abc", "a", "long-long-long-long-long-long-long-long-long-long-string"};
 
@@ -66,6 +100,11 @@ static std::string one_scan(ys_rules* R, const std::vector<bytes>& bufs, const S
   o.with_strings = 1;
   o.yield_us = sp.yield_us;
   o.timeout = sp.timeout;
+  if (sp.unmappable && unmappable_path())
+  {
+    o.entry = YS_SCAN_FILE;
+    o.scan_path = unmappable_path();
+  }
   o.modname = "tests";
   o.moddata = BLOBS[sp.blob];
   o.moddata_len = 5;
@@ -189,6 +228,14 @@ std::string run_case(Src& s, CaseInfo& ci)
         sp.park_us = (int) s.range(0, 3000);
         features |= 8 | 16;
       }
+      if (!sp.sigbus && s.coin(10) && unmappable_path())
+      {
+        // a file scan that fails inside the library (the file opens but cannot be mapped): its error
+        // path must not disturb the descriptors other threads are using
+        sp.unmappable = true;
+        sp.script_k = sp.script_action = 0;
+        features |= 8 | 16;
+      }
       features |= 1 | 2;  // the fixed rules always use the regexp VM and modules
       plan[t].push_back(sp);
     }
@@ -225,7 +272,7 @@ std::string run_case(Src& s, CaseInfo& ci)
     for (auto& sp : plan[t])
       ci.desc += strf(" t%d: buf%d(%zu bytes) entry=%d %s xi=%d xs=%d script=%d@%d yield=%d blob%d flags=%d%s\n", t, sp.buf, bufs[sp.buf].size(),
                       sp.entry, sp.scanner ? "scanner" : "rules-level", sp.xi, sp.xs, sp.script_action, sp.script_k, sp.yield_us, sp.blob, sp.flags,
-                      sp.sigbus ? strf(" SIGBUS-in-2nd-block(park %d us)", sp.park_us).c_str() : "");
+                      sp.sigbus ? strf(" SIGBUS-in-2nd-block(park %d us)", sp.park_us).c_str() : sp.unmappable ? " file-that-cannot-be-mapped" : "");
   ci.hash = hstr(ci.desc);
   checkpoint(s, ci.desc);
 
@@ -249,7 +296,7 @@ std::string run_case(Src& s, CaseInfo& ci)
       for (auto& sp : plan[t])
       {
         std::string key = strf("%d/%d/%d/%d/%d/%d/%d/%d/%d/%d/%d/%d/%d", sp.buf, sp.entry, (int) sp.scanner, sp.xi, sp.xs, (int) sp.xb, sp.script_k,
-                               sp.script_action, sp.blob, sp.flags, (int) sp.sigbus, sp.timeout, sp.yield_us != 0);
+                               sp.script_action, sp.blob, sp.flags, (int) sp.sigbus + 2 * (int) sp.unmappable, sp.timeout, sp.yield_us != 0);
         auto it = memo.find(key);
         if (it == memo.end())
           it = memo.emplace(key, one_scan(R.r, bufs, sp)).first;
